@@ -73,7 +73,7 @@ PROPS = {
     n=dict(quick=1200, thorough=12000),
     timeout=dict(quick=600, thorough=3000),
     trivial=lambda c: c['args'][5] == '0' or c['args'][4] in ('ecdsa', 'ed25519'),
-    rule='RSA device keys (1024/2048 quick; 1024..4096 thorough) generated per run; the harness owns the private key and signs arbitrary encoded messages: '
+    rule='RSA device keys (1024/2048 quick; 1024..4096 thorough) generated per run, plus moduli of tLen-11, tLen-10, tLen+9 .. tLen+12 bytes around the shortest one that holds a full-length message for SHA-256 / 384 / 512; the harness owns the private key and signs arbitrary encoded messages: '
          'canonical (both encodings x 4 hashes x every label), every structural byte position and a sample of padding positions replaced by 00/01/ff/bit-flip, '
          'shifted / truncated padding, wrong-hash and MD5 identifiers, all labels 0..17, bit flips of signature and body, other signature lengths, '
          'non-RSA keys, device certificate issued by root / other CA / self-signed / expired / not yet valid. '
@@ -120,7 +120,7 @@ PROPS = {
     assumptions=['ServeAgent as repaired for findings F2 (length guards) and F3 (recover around the forwarded standard request)'],
  ),
  'C13': dict(
-    group='serve', only=['rpc', 'slots'], ops=['rpc', 'slots', 'trunc', 'garb'],
+    group='serve', only=['rpc', 'slots'], ops=['rpc', 'slots', 'slotop', 'trunc', 'garb'],
     klass=lambda c: c['op'] + ':' + (c['args'][0] if c['op'] in ('rpc', 'garb') else c['args'][2]) + ':' + ((c['model'] or ['?', '?'])[-1].split(' ')[0].split(':')[0])[:12],
     modules=['Ysshra.Props.C13', 'Ysshra.Bridge.Wire', 'Ysshra.Bridge.SnapYubi', 'Ysshra.Bridge.SnapParse'],
     theorem_files=['Props/C13.lean', 'Bridge/SnapYubi.lean', 'Bridge/SnapParse.lean'],
@@ -133,6 +133,7 @@ PROPS = {
          'sign (0..64 KiB data, all flags, failing), add (comments, lifetime, confirm), remove, remove-all, list, lock/unlock (passphrases, failing), '
          'add / remove smartcard key (reader ids that script the agent\'s reply: success, failure, empty reply, lost connection, success with trailing bytes, other; PINs incl. empty and binary; lifetimes 0, below a second, fractional, 2^32-1 s; confirm). '
          'garb: a peer that answers with a complete frame that is no response of the expected kind (empty, failure byte, lone success byte, overrunning string length, one string of two, near-miss status texts): every client operation must return an error. '
+         'slotop: (*server).ReadSlot / AttestSlot with a fake yubico-piv-tool that records its arguments (certificate / empty / unparsable output x exit 0 / 1 x local / remote mode x slot names incl. empty and with a space): refused in remote mode without running the tool, the tool is called with the action and the slot as given, a non-zero exit is an error, the printed certificate is what the caller gets. '
          'slots: (*server).ListSlots with a fake yubico-piv-tool first on PATH printing well-formed, short, truncated, CRLF, empty output or exiting non-zero; remote mode. Every case is non-trivial; distinct = distinct argument fields.'
          ' After the operation, follow-up raw requests of 13 sizes are sent on the same connection and the arguments the served agent retained are re-read (argument-changed-after-delivery). Raw-forward replies are scriptable (request code 0xFD): every status byte alone and with a body, empty, random.'
          ' Keys of every type: Ed25519, ECDSA P-256 / P-384, RSA-2048 and certificates over an Ed25519 and an RSA key.',
@@ -271,7 +272,7 @@ PROPS = {
     n=dict(quick=600, thorough=30000),
     timeout=dict(quick=900, thorough=3400),
     trivial=lambda c: 'gen:' not in ((c['model'] or [''])[0]),
-    rule="histories of 1..5 runs of the real gensign.Run against one forwarded agent (x/crypto keyring behind a scripted agent served over a Unix socket pair) with 0..4 pre-existing identities (plain keys, foreign certificates, comments that are near-misses of the handler label); per run: policy NONS/NSOK, hard-key flag, login / user / host / IP / transaction-id strings with JSON metacharacters and non-ASCII, key directory states (.pub vs bare, absent, unparsable, directory, another user's key), agent behaviours (honest with / without the key, other key, other data, replayed signature, garbage, empty, failure), 1..4 handlers (regular + scripted accept / reject / panic in Name / Authenticate / Generate / AddCertsToAgent, 0..2 requests), CA replies (0..4 certificates with 0..4 comments, foreign-key certificate, plain key, error, panic), validity one second .. ten years and the uint32 wrap-around ends, key-identifier maps by name in any case or by number, failure reply or connection loss at agent request index 0..8. Compared: error kind, ordered trace of handler / agent / CA events (lifetimes, comments, which key and certificate), challenge length and freshness across the history, final agent identities, the request the CA received (KeyID token tree). Non-trivial = at least one run got past authentication; distinct = distinct argument fields."
+    rule="the kind of the returned error is read from Error.Type() and cross-checked against IsErrorOfType for every kind; histories of 1..5 runs of the real gensign.Run against one forwarded agent (x/crypto keyring behind a scripted agent served over a Unix socket pair) with 0..4 pre-existing identities (plain keys, foreign certificates, comments that are near-misses of the handler label); per run: policy NONS/NSOK, hard-key flag, login / user / host / IP / transaction-id strings with JSON metacharacters and non-ASCII, key directory states (.pub vs bare, absent, unparsable, directory, another user's key), agent behaviours (honest with / without the key, other key, other data, replayed signature, garbage, empty, failure), 1..4 handlers (regular + scripted accept / reject / panic in Name / Authenticate / Generate / AddCertsToAgent, 0..2 requests), CA replies (0..4 certificates with 0..4 comments, foreign-key certificate, plain key, error, panic), validity one second .. ten years and the uint32 wrap-around ends, key-identifier maps by name in any case or by number, failure reply or connection loss at agent request index 0..8. Compared: error kind, ordered trace of handler / agent / CA events (lifetimes, comments, which key and certificate), challenge length and freshness across the history, final agent identities, the request the CA received (KeyID token tree). Non-trivial = at least one run got past authentication; distinct = distinct argument fields."
          " Key-file states also: empty, white space only, comment only. Scripted handlers include one whose Name() panics after a successful authentication. CA kinds realdown / realdead put the real crypki.Signer (closed port; live or already cancelled context) behind Run. Verdicts are the clause predicates of Spec/Gensign.lean on the implementation's own trace (tags Cnn.<clause>)."
          ' Key-identifier maps also with numbers written with leading zeros; a key whose CSRs() panics.',
     trusted_base=['signature verification, key generation and crypto/rand are real in the run and oracles in the model (honest-signer law built into `verifies`)', 'x/crypto agent client/server and keyring', 'mapstructure decoding of the handler configuration (the algorithm-name hook is modelled in the driver)'],
